@@ -1496,6 +1496,60 @@ static string opParse(const vector<string>& a)
 }
 
 
+// ownalpha <A> : the automaton is LOADED FROM TEXT into an automaton with its OWN on-the-fly alphabet (the pattern of examples/example14.cc),
+// while the process-wide default alphabet holds other names under the small numbers; every result of an operation is dumped with its own
+// alphabet and read back BY SYMBOL NAME ("s<k>" -> k).  "EXC" = the dump throws, "BADNAME" = the dump prints a symbol name the input never had.
+static string dumpByNames(const TA& r)
+{
+	CaptureSerializer cs;
+	try { r.DumpToString(cs); }
+	catch (const std::exception&) { return "EXC"; }
+	TAT t;
+	auto num = [](const string& w, char pre, bool& ok) -> size_t {
+		string d = (pre && !w.empty() && w[0] == pre) ? w.substr(1) : (pre ? string() : w);
+		if (d.empty() || d.find_first_not_of("0123456789") != string::npos) { ok = false; return 0; }
+		return static_cast<size_t>(std::stoull(d));
+	};
+	bool ok = true;
+	for (auto& tr : cs.last.transitions) {
+		RuleT rl;
+		rl.sym = num(tr.second, 's', ok);
+		for (auto& k : tr.first) rl.kids.push_back(num(k, 0, ok));
+		rl.parent = num(tr.third, 0, ok);
+		t.rules.push_back(rl);
+	}
+	for (auto& f : cs.last.finalStates) t.finals.push_back(num(f, 0, ok));
+	if (!ok) return "BADNAME";
+	return dumpTA(buildTA(t));
+}
+
+static string opOwnAlpha(const vector<string>& a)
+{
+	static bool polluted = false;
+	Parsing::TimbukParser parser;
+	if (!polluted) {
+		// other names under the numbers 0..5 of the process-wide default alphabet
+		TA g; AutBase::StateDict sd;
+		g.LoadFromString(parser, "Ops zz0:0 zz1:1 zz2:2 zz3:0 zz4:1 zz5:2\nAutomaton G\nStates p\nFinal States p\nTransitions\nzz0 -> p\nzz1(p) -> p\nzz2(p,p) -> p\nzz3 -> p\nzz4(p) -> p\nzz5(p,p) -> p\n", sd);
+		polluted = true;
+	}
+	TAT t = parseTA(a.at(0));
+	TA::AlphabetType own(new TA::OnTheFlyAlphabet);
+	TA A; A.SetAlphabet(own);
+	AutBase::StateDict sd;
+	A.LoadFromString(parser, timbukOf(t), sd);
+	string out = "A0=" + dumpByNames(A);
+	out += " useless=" + dumpByNames(A.RemoveUselessStates());
+	out += " unreach=" + dumpByNames(A.RemoveUnreachableStates());
+	out += " union=" + dumpByNames(TA::Union(A, A));
+	out += " isect=" + dumpByNames(TA::Intersection(A, A));
+	out += " isectbu=" + dumpByNames(TA::IntersectionBU(A, A));
+	out += " cand=" + dumpByNames(A.GetCandidateTree());
+	out += " reduce=" + dumpByNames(A.Reduce());
+	out += " copy=" + dumpByNames(TA(A));
+	return out;
+}
+
 // parse2 <hex t0> <hex t1> : two spellings of one description (nullary rules with / without parentheses and blanks, layout)
 static string opParse2(const vector<string>& a)
 {
@@ -1927,6 +1981,7 @@ static string runCase(const string& kind, const vector<string>& args)
 	if (kind == "isectbu") return opIsect(args, true);
 	if (kind == "mapsx") return opMapsX(args);
 	if (kind == "parse2") return opParse2(args);
+	if (kind == "ownalpha") return opOwnAlpha(args);
 	if (kind == "trim") return opTrim(args);
 	if (kind == "cand") return opCand(args);
 	if (kind == "reduce") return opReduce(args);
